@@ -341,6 +341,7 @@ type buildOpts struct {
 	SnapLoad    bool
 	Session     *Vars  // a long-lived Project (watch mode): Run(Target), the sources change to these, Reload, Run(Then)
 	GCAfterRun  bool   // Run, then GC on the SAME loaded Project (a long-lived process: REPL, watch mode, library use)
+	RetryAfter  string // one loaded Project: this body fails in a first Run(Target); the cause (not a declared input) is repaired; Run(Target) again
 	ChildCwd    string // the build runs in a child process started in this subdirectory of the project
 	Interrupt   string // the build runs in a child process that dies just before emitting this file
 }
@@ -403,6 +404,15 @@ func buildRaw(root string, v Vars, o buildOpts) *buildResult {
 		l, perr := label.Parse(o.Target)
 		if perr != nil {
 			panic(perr)
+		}
+		if o.RetryAfter != "" {
+			be.mu.Lock()
+			be.fail[o.RetryAfter] = true
+			be.mu.Unlock()
+			proj.Run(l, nil) // fails if that body runs
+			be.mu.Lock()
+			delete(be.fail, o.RetryAfter)
+			be.mu.Unlock()
 		}
 		res.RunErr = proj.Run(l, &dawn.RunOptions{Always: o.Always, DryRun: o.Dry})
 		if o.Session != nil {
